@@ -155,16 +155,24 @@ int main()
             std::printf("\n"); std::fflush(stdout);
             continue;
         }
-        if (cmd == "RRTS")
-        {
-            int work = 0; double cthr = 0, rf = 1.1; in >> maxd >> bias >> thr >> work >> cthr >> rf >> iters;
+        if (cmd == "RRTS" || cmd == "RRTSN")
+        {   // RRTSN <maxDistance> <goalBias> <threshold> <work> <costThreshold> <rewireFactor> W .. S .. G .. C <ncalls> { <iters> T <nt> {u}* P <np> {x y}* }*
+            const bool smulti = cmd == "RRTSN";
+            int work = 0; double cthr = 0, rf = 1.1; in >> maxd >> bias >> thr >> work >> cthr >> rf; if (!smulti) in >> iters;
             std::vector<Wall> swalls; std::vector<std::pair<double, double>> sst; double sgx = 0, sgy = 0; int sn; std::vector<double> stape;
             auto sq = std::make_shared<std::deque<std::pair<double, double>>>();
             in >> tag >> sn; for (int i = 0; i < sn; ++i) { Wall k; in >> k.w >> k.lo >> k.hi; swalls.push_back(k); }
             in >> tag >> sn; for (int i = 0; i < sn; ++i) { double x, y; in >> x >> y; sst.emplace_back(x, y); }
             in >> tag >> sgx >> sgy;
-            in >> tag >> sn; for (int i = 0; i < sn; ++i) { double u; in >> u; stape.push_back(u); }
-            in >> tag >> sn; for (int i = 0; i < sn; ++i) { double x, y; in >> x >> y; sq->emplace_back(x, y); }
+            struct SCall { unsigned iters; std::vector<double> tape; std::vector<std::pair<double, double>> pts; }; std::vector<SCall> scalls;
+            int snc = 1; if (smulti) in >> tag >> snc;
+            for (int c = 0; c < snc; ++c)
+            {
+                SCall k; k.iters = iters; if (smulti) in >> k.iters;
+                in >> tag >> sn; for (int i = 0; i < sn; ++i) { double u; in >> u; k.tape.push_back(u); }
+                in >> tag >> sn; for (int i = 0; i < sn; ++i) { double x, y; in >> x >> y; k.pts.emplace_back(x, y); }
+                scalls.push_back(k);
+            }
             auto space = std::make_shared<ob::RealVectorStateSpace>(2); space->setBounds(-100, 100);
             space->setStateSamplerAllocator([sq](const ob::StateSpace *sp) { return std::make_shared<ScriptSampler>(sp, sq); });
             auto si = std::make_shared<ob::SpaceInformation>(space);
@@ -178,22 +186,31 @@ int main()
             auto sp = std::make_shared<og::RRTstar>(si);
             sp->setNearestNeighbors<ompl::NearestNeighborsLinear>(); sp->setRange(maxd); sp->setGoalBias(bias); sp->setRewireFactor(rf);
             sp->setProblemDefinition(pdef); sp->setup();
-            unsigned cnt = 0; const unsigned lim = iters;
-            ompl::RNG::verifSetTape(stape.data(), stape.size());
-            sp->solve(ob::PlannerTerminationCondition([&cnt, lim] { return cnt++ >= lim; }));
-            ompl::RNG::verifSetTape(nullptr, 0);
+            std::vector<std::string> sreps;
+            for (auto &k : scalls)
+            {
+                sq->clear(); for (auto &p : k.pts) sq->push_back(p);
+                pdef->clearSolutionPaths();
+                unsigned cnt = 0; const unsigned lim = k.iters;
+                ompl::RNG::verifSetTape(k.tape.data(), k.tape.size());
+                sp->solve(ob::PlannerTerminationCondition([&cnt, lim] { return cnt++ >= lim; }));
+                ompl::RNG::verifSetTape(nullptr, 0);
+                char buf[128]; std::string r;
+                if (pdef->hasSolution())
+                {
+                    auto sols = pdef->getSolutions(); auto &top = sols[0];
+                    auto path = std::dynamic_pointer_cast<og::PathGeometric>(top.path_);
+                    std::snprintf(buf, sizeof buf, " | 1 %d %016llx %016llx %d |", top.approximate_ ? 1 : 0, bits(top.approximate_ ? top.difference_ : 0.0), bits(top.cost_.value()), top.optimized_ ? 1 : 0); r += buf;
+                    for (std::size_t i = 0; i < path->getStateCount(); ++i) { const double *v = path->getState(i)->as<ob::RealVectorStateSpace::StateType>()->values; std::snprintf(buf, sizeof buf, " %016llx %016llx;", bits(v[0]), bits(v[1])); r += buf; }
+                }
+                else r = " | 0 |";
+                sreps.push_back(r);
+            }
             std::vector<og::RRTstar::Motion *> ms; sp->nn_->list(ms);
             std::map<const og::RRTstar::Motion *, long> idx; for (std::size_t i = 0; i < ms.size(); ++i) idx[ms[i]] = (long)i;
-            std::printf("rrts %zu;", ms.size());
+            std::printf("%s %zu;", smulti ? "rrtsn" : "rrts", ms.size());
             for (auto *m : ms) { const double *v = m->state->as<ob::RealVectorStateSpace::StateType>()->values; std::printf(" %016llx %016llx %ld %016llx %016llx;", bits(v[0]), bits(v[1]), m->parent ? idx[m->parent] : -1L, bits(m->incCost.value()), bits(m->cost.value())); }
-            if (pdef->hasSolution())
-            {
-                auto sols = pdef->getSolutions(); auto &top = sols[0];
-                auto path = std::dynamic_pointer_cast<og::PathGeometric>(top.path_);
-                std::printf(" | 1 %d %016llx %016llx %d |", top.approximate_ ? 1 : 0, bits(top.approximate_ ? top.difference_ : 0.0), bits(top.cost_.value()), top.optimized_ ? 1 : 0);
-                for (std::size_t i = 0; i < path->getStateCount(); ++i) { const double *v = path->getState(i)->as<ob::RealVectorStateSpace::StateType>()->values; std::printf(" %016llx %016llx;", bits(v[0]), bits(v[1])); }
-            }
-            else std::printf(" | 0 |");
+            for (auto &r : sreps) std::printf("%s", r.c_str());
             std::printf("\n"); std::fflush(stdout);
             continue;
         }
